@@ -212,6 +212,7 @@ def run(ctx):
     c05.r1_placement(sub)
     c05.r23_stacks(sub)
     c05.r5_tables(sub)
+    c05.r4_who_may_write(sub)      # placement / rights / ep target changed behind the key's back (an in-place piece swap) = one key, two positions
     for s in sub.samples:
         ctx.ob(s['rule'].replace('C05.', 'C02.R3/C05.'), s['function'], s['instance'], s['ok'], found=s['found'], expected=s['expected'],
                why='two different positions must never share a cache key: the key has to be a function of the current position only',
